@@ -16,7 +16,7 @@ from facts import strip, show, walk, const_val, normalize_cond, atom_of
 
 def round_init(run, prog, RULE):
     """C11-e / C09-g: the heart-beat round starts from freshly assigned cursors."""
-    chb = run.need(prog.func("call_heart_beat"), "call_heart_beat")
+    chb = run.need(prog.funci("call_heart_beat"), "call_heart_beat")
     run.saw(chb)
     subs = [(b, i, n) for b, i, n in chb.nodes() if n.get("k") == "Sub" and strip(n["b"]).get("n") == "heart_beats"]
     run.need(subs, "heart_beats[] subscript in call_heart_beat")
@@ -38,18 +38,33 @@ def round_init(run, prog, RULE):
 
 def fault_locality(run, prog, RULE):
     """C11-a / C09-d: the failing heart beat, and only it, is switched off on the uncaught path."""
-    eh = run.need(prog.func("error_handler"), "error_handler")
-    chb = run.need(prog.func("call_heart_beat"), "call_heart_beat")
+    eh = run.need(prog.funci("error_handler"), "error_handler")
+    chb = run.need(prog.funci("call_heart_beat"), "call_heart_beat")
     run.saw(eh)
     run.saw(chb)
     # ---- C11-a
     ljs = [(b, i, n) for b, i, n in eh.calls() if n.get("fn") in ("longjmp", "_longjmp", "siglongjmp")]
-    tests = [bid for bid in eh.reachable() if eh.branch_cond(bid) is not None and strip(eh.branch_cond(bid)).get("n") == "current_heart_beat"]
+    # a local that only ever holds current_heart_beat stands for it (object_t *failed = current_heart_beat)
+    hb_alias = set()
+    for b, i, n in eh.nodes():
+        if n.get("k") == "Decl":
+            for v in n.get("vars", ()):
+                if isinstance(v.get("init"), dict) and strip(v["init"]).get("k") == "Ref" and strip(v["init"]).get("n") == "current_heart_beat":
+                    others = [1 for b2, i2, n2 in eh.nodes() if n2.get("k") == "Asg" and strip(n2["L"]).get("k") == "Ref" and strip(n2["L"]).get("id") == v.get("id")]
+                    if not others:
+                        hb_alias.add(v.get("id"))
+
+    def is_hb(e):
+        e = strip(facts.normalize_cond(e, True)[0])
+        return e.get("k") == "Ref" and (e.get("n") == "current_heart_beat" or (e.get("id") in hb_alias and e.get("id") is not None))
+    tests = [bid for bid in eh.reachable() if eh.branch_cond(bid) is not None and is_hb(eh.branch_cond(bid))]
     ok, why = False, "error_handler does not test current_heart_beat"
     if tests:
         B = tests[0]
         blk = eh.blocks[B]
-        offs = [b.id for b, i, n in eh.calls("set_heart_beat") if strip(n["args"][0]).get("n") == "current_heart_beat" and const_val(n["args"][1]) == 0]
+        # the edge on which the heart beat object is set
+        set_edge = blk.succ[0] if facts.normalize_cond(eh.branch_cond(B), True)[1] else blk.succ[1]
+        offs = [b.id for b, i, n in eh.calls("set_heart_beat") if is_hb(n["args"][0]) and const_val(n["args"][1]) == 0]
         clears = [b.id for b, i, n in eh.nodes() if n.get("k") == "Asg" and strip(n["L"]).get("n") == "current_heart_beat" and const_val(n["R"]) == 0]
         final = [(b, i, n) for b, i, n in ljs if b.id in cfgq.reach_set(eh, [B])]
         if not offs:
@@ -69,16 +84,17 @@ def fault_locality(run, prog, RULE):
                 c = eh.branch_cond(bid)
                 if c is None:
                     continue
-                op, l, r = atom_of(c, True)
-                if op == "<" and r is not None and "save_csp" in show(l) and strip(r).get("n") == "control_stack":
-                    contained.add((bid, eh.blocks[bid].succ[1]))
+                for idx, truth in ((0, True), (1, False)):
+                    op, l, r = atom_of(c, truth)
+                    if op == ">=" and r is not None and "save_csp" in show(l) and strip(r).get("n") == "control_stack" and idx < len(eh.blocks[bid].succ):
+                        contained.add((bid, eh.blocks[bid].succ[idx]))
             for lb, li, ln in final:
                 if not eh.dominates(B, lb.id):
                     ok, why = False, "the final longjmp (line %s) is not dominated by the heart beat test" % ln.get("l")
-                p = eh.reach_avoiding([blk.succ[0]], lambda x, t=lb.id: x.id == t, avoid_blocks=offs, avoid_edges=contained)
+                p = eh.reach_avoiding([set_edge], lambda x, t=lb.id: x.id == t, avoid_blocks=offs, avoid_edges=contained)
                 if p is not None:
                     ok, why = False, "path %s from the test's true edge reaches the jump without set_heart_beat(current_heart_beat, 0)" % p
-                p = eh.reach_avoiding([blk.succ[0]], lambda x, t=lb.id: x.id == t, avoid_blocks=clears, avoid_edges=contained)
+                p = eh.reach_avoiding([set_edge], lambda x, t=lb.id: x.id == t, avoid_blocks=clears, avoid_edges=contained)
                 if p is not None:
                     ok, why = False, "path %s reaches the jump with current_heart_beat still set" % p
             # order: switch off before clearing
@@ -99,7 +115,9 @@ def fault_locality(run, prog, RULE):
         run.ob(RULE, "early-exit:%d" % j, allowed is not None, "longjmp at line %s skips the heart-beat switch-off: %s" % (ln.get("l"), allowed or "not one of the two reviewed exits (catch frame / in_error); its guards are %s" % [show(c)[:40] for c, t, B in cfgq.guards(eh, lb.id)]),
                eh.file, ln.get("l"), "error_handler", what="error_handler leaves at line %s without switching off the failing heart beat on a path that is neither the catch path nor the in_error exit" % ln.get("l"))
     # catch path must not switch it off (a caught error is not a fault of the heart beat) - the catch longjmp is not reachable from the test
-    writers = sorted({f.name for f in prog.functions() for b, i, n in f.nodes() if n.get("k") == "Asg" and strip(n["L"]).get("n") == "current_heart_beat" and strip(n["L"]).get("d") in ("global", "static")})
+    import helpers
+    writers = sorted(helpers.fold(prog, {f.name for f in prog.functions() for b, i, n in f.nodes() if n.get("k") == "Asg" and strip(n["L"]).get("n") == "current_heart_beat" and strip(n["L"]).get("d") in ("global", "static")},
+                                  {"call_heart_beat", "error_handler"}))
     run.ob(RULE, "writers", set(writers) <= {"call_heart_beat", "error_handler"} and bool(writers), "current_heart_beat written by %s" % writers, chb.file, chb.line, "call_heart_beat",
            what="current_heart_beat written outside call_heart_beat/error_handler: %s" % writers)
     calls = [(b, i, n) for b, i, n in chb.calls() if n.get("fn") in ("call_function", "apply", "apply_low", "call_function_pointer")]
@@ -125,7 +143,7 @@ def fault_locality(run, prog, RULE):
 
 def hb_cursor_rule(run, prog, RULE):
     """removal from heart_beats[] during a round keeps the round cursors right (used by C11-d and C08-j)"""
-    shb = run.need(prog.func("set_heart_beat"), "set_heart_beat")
+    shb = run.need(prog.funci("set_heart_beat"), "set_heart_beat")
     run.saw(shb)
     # ---- C11-d round cursors on removal
     # the position of the entry being removed: the local that subscripts heart_beats[] in set_heart_beat (whatever it is called)
@@ -151,9 +169,9 @@ def check(run, prog, tier):
     run.rule("C11-d", "set_heart_beat removal: num_hb_to_do-- only for an entry inside the running round (index < num_hb_to_do), heart_beat_index-- only for an entry at or before the cursor, both only while a round runs", 2)
     run.rule("C11-c", "heart_beats[]: every subscript is bounded by num_hb_objs (counting-down loop from the length, or append after the capacity test); the capacity variable is increased before the reallocation", 6)
 
-    eh = run.need(prog.func("error_handler"), "error_handler")
-    chb = run.need(prog.func("call_heart_beat"), "call_heart_beat")
-    shb = run.need(prog.func("set_heart_beat"), "set_heart_beat")
+    eh = run.need(prog.funci("error_handler"), "error_handler")
+    chb = run.need(prog.funci("call_heart_beat"), "call_heart_beat")
+    shb = run.need(prog.funci("set_heart_beat"), "set_heart_beat")
     do = run.need(prog.func("destruct_object"), "destruct_object")
     for f in (eh, chb, shb, do):
         run.saw(f)
